@@ -20,6 +20,7 @@ DECLINED = ["'eventually acquires' (fairness / progress)",
             "memory images of ABT_MUTEX_INITIALIZER beyond the attribute constants"]
 ASSUMPTIONS = ["X2: the spinlock primitives are a correct test-and-set lock", "C02.R3/C05.R5 for the blocking arms"]
 RULES_DOC = dict(common.SHARED_DOC)
+RULES_DOC["X7"] = common.X7_DOC
 RULES_DOC["X4"] = common.X4_DOC
 RULES_DOC["R10"] = "= C05.R1: a condition wait releases the mutex through ABTI_mutex_unlock, enqueues, and re-acquires through ABTI_mutex_lock (the recursive-mutex bookkeeping is kept across a wait); error paths return holding the mutex"
 RULES_DOC["R11"] = "the identity compared with owner_id is the calling work unit: ABTI_self_get_thread_id returns the stream's current work unit (ABTI_xstream::p_thread), or a per-OS-thread address for an external thread -- never something several work units share (two ULTs of one stream must not both look like the owner of a recursive mutex)"
@@ -522,6 +523,7 @@ def rule_R11(P, rep):
 
 
 def run(P, rep, tier):
+    common.rule_X7(P, rep, records=('ABTI_mutex', 'ABTI_mutex_attr'))
     common.rule_X6(P, rep)
     common.rule_X4(P, rep)
     v = P.variant
